@@ -34,7 +34,7 @@ def _float_probs(draw, k):
 @st.composite
 def stopping_games(draw, min_inner=1, max_inner=8, dyadic=None, rewards=REWARD_POOL,
                    max_actions=4, dead_bias=True, max_finals=3, max_sinks=3,
-                   acyclic=False, owners=None, dup_names=False, zero_edges=False):
+                   acyclic=False, owners=None, dup_names=False, zero_edges=False, inner_finals=False):
     """A game that is stopping BY CONSTRUCTION.
 
     Abstract inner states 0..ni-1 carry a rank (their abstract index); every
@@ -133,6 +133,11 @@ def stopping_games(draw, min_inner=1, max_inner=8, dyadic=None, rewards=REWARD_P
     finals = [ids[f] for f in finals_a]
     if len(finals) > 1:
         finals = list(draw(st.permutations(finals)))
+    if inner_finals and ni >= 2 and draw(st.integers(0, 2)) == 0:
+        # final states that are not absorbing: play (and reward collection) goes on after visiting them
+        for a in draw(st.lists(st.integers(0, ni - 1), min_size=1, max_size=2, unique=True)):
+            if ids[a] != 0:
+                finals.insert(draw(st.integers(0, len(finals))), ids[a])
     if draw(st.integers(0, 5)) == 0:
         # the same final state listed twice (or three times): a legal way to write the same set down
         for _ in range(draw(st.integers(1, 2))):
